@@ -1,6 +1,6 @@
 (* Extraction of the checked run (C04): the interpreter model run in Async mode with the local
    invariant of proofs/SaxRefine.v tested at every configuration a step is taken from. *)
 Require Import Coq.extraction.Extraction Coq.extraction.ExtrOcamlBasic Coq.extraction.ExtrOcamlString.
-Require Import Grits.Base Grits.Expand Grits.Dump Grits.Tc Grits.TcTop Grits.Runtime Grits.proofs.SaxRefine Grits.proofs.SaxTyped Grits.proofs.SaxAccept Grits.proofs.SaxDrop Grits.proofs.SaxSplit.
+Require Import Grits.Base Grits.Expand Grits.Dump Grits.Tc Grits.TcTop Grits.Runtime Grits.proofs.SaxRefine Grits.proofs.SaxTyped Grits.proofs.SaxAccept Grits.proofs.SaxDrop Grits.proofs.SaxSplit Grits.proofs.SaxNP Grits.proofs.SaxTwo.
 Extraction Language OCaml.
-Extraction "model_sax.ml" parse_string typecheck init_config exec_run exec_checked labels c04_premises_text c04_core_text c04_drop_text c04_all_text.
+Extraction "model_sax.ml" parse_string typecheck init_config exec_run exec_checked labels c04_premises_text c04_core_text c04_drop_text c04_all_text c04_all2_text c04_np_plain_text c04_np_fwd_text.
